@@ -279,6 +279,17 @@ func (r *SexpArray) Type() *RegisteredType {
 }
 
 func (arr *SexpArray) SexpString(ps *PrintState) string {
+	// an array can (through aset or slice aliasing) contain itself;
+	// track the arrays being printed and cut the cycle.
+	if ps == nil {
+		ps = NewPrintState()
+	}
+	if ps.GetSeen(arr) {
+		return "[...]"
+	}
+	ps.SetSeen(arr, "SexpArray")
+	defer delete(ps.Seen, arr)
+
 	indInner := ""
 	indent := ps.GetIndent()
 	innerPs := ps.AddIndent(4) // generates a fresh new PrintState
